@@ -136,6 +136,7 @@ type obligation struct {
 	Replayed string // "", "reproduced", "not-reproduced", "skipped"
 	Replay   string // dir
 	model    map[string]smt.ModelVal
+	races    []symex.RaceConflict
 }
 
 type valCase struct {
@@ -365,6 +366,7 @@ func Run(cfg Config) int {
 	var violations []string
 	var knownLines []string
 	inconclusive := []string{}
+	unconfirmed := []string{}
 	validated := 0
 	validationMismatch := []string{}
 	for _, r := range results {
@@ -409,6 +411,18 @@ func Run(cfg Config) int {
 					}
 					obs[i].Replayed = "not-reproduced"
 				}
+			}
+			if hit == nil && len(obs[0].races) > 0 {
+				// a lockset candidate the race detector did not confirm in any attempt: the two accesses may be
+				// ordered by something the lockset does not see (goroutine start, channel, WaitGroup).  Reported,
+				// recorded in the evidence, not an alarm.
+				c := obs[0].races[0]
+				fmt.Fprintf(os.Stderr, "RACE-CANDIDATE-UNCONFIRMED: %s %s: %s (%s) vs %s (%s); see %s\n", r.Entry.Name, obs[0].Label, c.A, c.FnA, c.B, c.FnB, lastDir)
+				unconfirmed = append(unconfirmed, fmt.Sprintf("%s %s: %s vs %s", r.Entry.Name, obs[0].Label, c.A, c.B))
+				for _, ob := range obs {
+					ob.Verdict = "unconfirmed-candidate"
+				}
+				continue
 			}
 			if hit == nil {
 				inconclusive = append(inconclusive, fmt.Sprintf("%s: %d counterexample(s) for %s did not reproduce natively (encoder/stub mismatch); see %s\n%s", r.Entry.Name, len(obs), obs[0].Label, lastDir, tail(lastOut, 15)))
@@ -461,7 +475,7 @@ func Run(cfg Config) int {
 	for _, l := range inconclusive {
 		fmt.Fprintln(os.Stderr, "INCONCLUSIVE:", l)
 	}
-	writeEvidence(cfg, prog, results, findings, len(violations), len(knownLines), validated, inconclusive, loadSecs, time.Since(start).Seconds())
+	writeEvidence(cfg, prog, results, findings, len(violations), len(knownLines), validated, inconclusive, unconfirmed, loadSecs, time.Since(start).Seconds())
 	fmt.Fprintf(os.Stderr, "%s %s: entries=%d paths=%d obligations=%d violations=%d known=%d inconclusive=%d validated=%d wall=%.1fs\n",
 		cfg.Property, cfg.Tier, len(results), totalPaths(results), totalObl(results), len(seenV), len(seen), len(inconclusive), validated, time.Since(start).Seconds())
 	return exit
@@ -574,6 +588,49 @@ func runEntry(cfg Config, prog *symex.Program, e entryInfo, findings []Finding) 
 			}
 		}
 	}
+	// Race2 entries: combine the accesses of paths that ran the first handler with those of paths that ran
+	// the second one; a candidate needs both paths possible from one setup (joint path condition).
+	{
+		var aPaths, bPaths []*symex.Path
+		for _, p := range paths {
+			if p.RaceLabel == "" || p.Outcome != "return" {
+				continue
+			}
+			if p.RaceRegion == 1 {
+				aPaths = append(aPaths, p)
+			} else {
+				bPaths = append(bPaths, p)
+			}
+		}
+		seenPair := map[string]bool{}
+		for _, pa := range aPaths {
+			for _, pb := range bPaths {
+				cs := symex.RaceConflicts(pa.RaceAcc, pb.RaceAcc)
+				var fresh []symex.RaceConflict
+				for _, c := range cs {
+					if !seenPair[c.Desc+"|"+c.A+"|"+c.B] {
+						fresh = append(fresh, c)
+					}
+				}
+				if len(fresh) == 0 {
+					continue
+				}
+				joint := append(append([]*smt.Term(nil), pa.PC...), pb.PC...)
+				if router.Check(joint...) != smt.Sat {
+					continue
+				}
+				byDesc := map[string][]symex.RaceConflict{}
+				for _, c := range fresh {
+					seenPair[c.Desc+"|"+c.A+"|"+c.B] = true
+					byDesc[c.Desc] = append(byDesc[c.Desc], c)
+				}
+				for d, l := range byDesc {
+					pa.Asserts = append(pa.Asserts, &symex.AssertRec{Label: pa.RaceLabel + ":" + strings.ReplaceAll(d, " ", "_"), Cond: smt.False,
+						PC: joint, Draws: append(append([]string(nil), pa.Draws...), pb.Draws...), Races: l})
+				}
+			}
+		}
+	}
 	seenUnsupp := map[string]bool{}
 	deadline := t0.Add(budget + budget/2)
 	timedOut := false
@@ -639,7 +696,7 @@ func runEntry(cfg Config, prog *symex.Program, e entryInfo, findings []Finding) 
 			if lp := labelProp(ar.Label); lp != "" && lp != cfg.Property {
 				continue // obligation of another property served by the same entry
 			}
-			ob := &obligation{Entry: e.Name, Label: ar.Label, PathID: p.ID, PCLen: len(ar.PC)}
+			ob := &obligation{Entry: e.Name, Label: ar.Label, PathID: p.ID, PCLen: len(ar.PC), races: ar.Races}
 			res.Obligations = append(res.Obligations, ob)
 			neg := smt.Not(ar.Cond)
 			q := append(append([]*smt.Term(nil), ar.PC...), neg)
@@ -678,7 +735,7 @@ func runEntry(cfg Config, prog *symex.Program, e entryInfo, findings []Finding) 
 					qIn := append(append([]*smt.Term(nil), q...), regions[i])
 					r, model := router.CheckModel(qIn, syms)
 					if r == smt.Sat {
-						kob := &obligation{Entry: e.Name, Label: ar.Label, PathID: p.ID, PCLen: len(ar.PC), Verdict: "sat", Known: f.ID, Witness: modelToStrings(model), model: model}
+						kob := &obligation{Entry: e.Name, Label: ar.Label, PathID: p.ID, PCLen: len(ar.PC), Verdict: "sat", Known: f.ID, Witness: modelToStrings(model), model: model, races: ar.Races}
 						res.Obligations = append(res.Obligations, kob)
 					} else if r == smt.Unknown {
 						ob.Verdict = "unknown"
